@@ -16,7 +16,7 @@ macro_rules! stubs {
 struct Pg([u8; PAGE_SIZE]);
 
 stubs! {
-//@ props=C23 kind=proof timeout=900
+//@ props=C23 kind=bounded small_pages=1 bound="PAGE_SIZE scaled to 256 bytes by cfg(kahflane_turdb_verif_small_pages); every page byte and index symbolic" timeout=900
 /// LeafNode on arbitrary page bytes: from_page returns Ok/Err; for any index, slot_at / key_at /
 /// value_at / value_len_at return Ok or Err and never panic, overflow or read outside the page
 /// (every returned slice is a sub-slice of the page by construction; Kani's bounds/overflow checks
@@ -45,7 +45,7 @@ fn c23_leaf_accessors_total() {
     assert!(vs::is_ok_forget(LeafNode::from_page(&pg.0[..n])).is_none());
 }
 
-//@ props=C23 kind=known finding=F-C23-1
+//@ props=C23 kind=known finding=F-C23-1 small_pages=1
 /// KNOWN FINDING F-C23-1 (leaf): with a corrupted cell_count (> 2045) slot_at(index) slices
 /// data[24 + 8*index ..] beyond the 16 KiB page and panics instead of returning an error
 #[kani::proof]
